@@ -204,31 +204,31 @@ theorem ite_join_ne {c : Prop} [Decidable c] {a : ExprClass}
   · exact h
 
 mutual
-  theorem effectFree_of_class {P : Prims V} (ha : TablesAgree P) : ∀ e : Expr,
-      classify e ≠ .impure → noUserCall e = true → effectFree P e = true
+  theorem effectFree_of_class {P : Prims V} (ha : TablesAgree P) (capt : Nat → Bool) : ∀ e : Expr,
+      classify capt e ≠ .impure → noUserCall e = true → effectFree P e = true
     | .str _ _, _, _ | .num _ _, _, _ | .var _ _ _, _, _ | .bool _ _, _, _ | .null _, _, _ => by simp [effectFree]
     | .array es _, hc, hn => by
         simp only [classify] at hc
         simp only [noUserCall] at hn
-        simpa [effectFree] using effectFreeList_of_class ha es hc hn
+        simpa [effectFree] using effectFreeList_of_class ha capt es hc hn
     | .index a i _ _, hc, hn => by
         simp only [classify] at hc
         simp only [noUserCall, Bool.and_eq_true] at hn
         have h1 := join_ne_impure (join_ne_impure hc).1
-        simp [effectFree, effectFree_of_class ha a h1.1 hn.1, effectFree_of_class ha i h1.2 hn.2]
+        simp [effectFree, effectFree_of_class ha capt a h1.1 hn.1, effectFree_of_class ha capt i h1.2 hn.2]
     | .binary op l r s, hc, hn => by
         simp only [classify] at hc
         simp only [noUserCall, Bool.and_eq_true] at hn
         have h1 := join_ne_impure (ite_join_ne hc)
-        simp [effectFree, effectFree_of_class ha l h1.1 hn.1, effectFree_of_class ha r h1.2 hn.2]
+        simp [effectFree, effectFree_of_class ha capt l h1.1 hn.1, effectFree_of_class ha capt r h1.2 hn.2]
     | .unary op x s, hc, hn => by
         simp only [classify] at hc
         simp only [noUserCall] at hn
-        simp [effectFree, effectFree_of_class ha x (ite_join_ne hc) hn]
+        simp [effectFree, effectFree_of_class ha capt x (ite_join_ne hc) hn]
     | .member o _ _ _, hc, hn => by
         simp only [classify] at hc
         simp only [noUserCall] at hn
-        simp [effectFree, effectFree_of_class ha o (join_ne_impure hc).1 hn]
+        simp [effectFree, effectFree_of_class ha capt o (join_ne_impure hc).1 hn]
     | .call (.var name _ _) args fn _, hc, hn => by
         simp only [classify] at hc
         simp only [noUserCall, Bool.and_eq_true] at hn
@@ -237,7 +237,7 @@ mutual
           rw [hg] at hc
           simp only [Option.isSome] at hc
           cases fn with
-          | none => simp [ExprClass.join] at hc; cases h : classifyList args <;> simp_all
+          | none => simp [ExprClass.join] at hc; cases h : classifyList capt args <;> simp_all
           | some f => simp at hn
         | some gc =>
           rw [hg] at hc
@@ -251,7 +251,7 @@ mutual
               rw [hg] at this
               cases this
               exact absurd rfl h1.2
-          simp [effectFree, hgl, hsh, effectFreeList_of_class ha args h1.1 hn.2]
+          simp [effectFree, hgl, hsh, effectFreeList_of_class ha capt args h1.1 hn.2]
     | .call (.member o field _ _) args _ _, hc, hn => by
         simp only [classify] at hc
         simp only [noUserCall, Bool.and_eq_true] at hn
@@ -271,21 +271,21 @@ mutual
               rw [hm] at this
               cases this
               exact absurd rfl h1.2
-          simp [effectFree, hmu, effectFree_of_class ha o h2.2 hn.1, effectFreeList_of_class ha args h2.1 hn.2]
+          simp [effectFree, hmu, effectFree_of_class ha capt o h2.2 hn.1, effectFreeList_of_class ha capt args h2.1 hn.2]
     | .call (.index _ _ _ _) args _ _, hc, _ | .call (.str _ _) args _ _, hc, _ | .call (.num _ _) args _ _, hc, _
     | .call (.binary _ _ _ _) args _ _, hc, _ | .call (.call _ _ _ _) args _ _, hc, _
     | .call (.array _ _) args _ _, hc, _ | .call (.unary _ _ _) args _ _, hc, _
     | .call (.bool _ _) args _ _, hc, _ | .call (.null _) args _ _, hc, _ => by
         simp only [classify] at hc
         exact absurd rfl (join_ne_impure hc).2
-  theorem effectFreeList_of_class {P : Prims V} (ha : TablesAgree P) : ∀ es : List Expr,
-      classifyList es ≠ .impure → noUserCallList es = true → effectFreeList P es = true
+  theorem effectFreeList_of_class {P : Prims V} (ha : TablesAgree P) (capt : Nat → Bool) : ∀ es : List Expr,
+      classifyList capt es ≠ .impure → noUserCallList es = true → effectFreeList P es = true
     | [], _, _ => by simp [effectFreeList]
     | e :: es, hc, hn => by
         simp only [classifyList] at hc
         simp only [noUserCallList, Bool.and_eq_true] at hn
         have h1 := join_ne_impure hc
-        simp [effectFreeList, effectFree_of_class ha e h1.1 hn.1, effectFreeList_of_class ha es h1.2 hn.2]
+        simp [effectFreeList, effectFree_of_class ha capt e h1.1 hn.1, effectFreeList_of_class ha capt es h1.2 hn.2]
 end
 
 end NaijaVerif.C03
